@@ -12,7 +12,7 @@ KNOWN_FILE = os.path.join(VERIF, 'KNOWN_FINDINGS.txt')
 
 ENV = dict(os.environ, CARGO_NET_OFFLINE='true', CARGO_TERM_COLOR='never')
 
-QUICK_CAP = 300
+QUICK_CAP = 600
 THOROUGH_CAP = 3600
 
 
